@@ -42,7 +42,9 @@ BadPaths == { <<>>, <<97>>, <<47,47>>, <<47,97,47>>, <<47,97,47,47,98>>, <<47,97
 GoodPaths == { <<47>>, <<47,97>>, <<47,95,47,48>>, <<47,65,47,97,47,57>> }
 Sigs == { <<>>, <<121,121>>, <<40,41>>, <<40,121>>, <<121,41>>, <<123,115,118,125>>, <<97>>, <<97,123,118,115,125>>,
           <<97,123,115,125>>, <<97,123,115,115,115,125>>, <<122>>, <<109,121>>, <<97,123,115,118,125>>, <<40,121,40,115,41,41>>,
-          <<97,97,121>>, <<40,97,123,115,118,125,118,41>>, <<97,123,40,121,41,115,125>>, <<97,123,97,121,115,125>> }
+          <<97,97,121>>, <<40,97,123,115,118,125,118,41>>, <<97,123,40,121,41,115,125>>, <<97,123,97,121,115,125>>,
+          \* several complete types that begin and / or end with a structure: "(y)(y)", "(y)s(y)", "(y)y", "y(y)", "(u)(u)"
+          <<40,121,41,40,121,41>>, <<40,121,41,115,40,121,41>>, <<40,121,41,121>>, <<121,40,121,41>>, <<40,117,41,40,117,41>> }
 \* payload that is a valid encoding of the signature when it is a single complete type of the simple kinds below
 PayloadFor(sig) == IF sig = <<121>> THEN <<7>> ELSE <<>>
 Targeted ==
